@@ -29,7 +29,7 @@ def run(c):
         "handleGetTable cases depend on time.Now() only through the position of the 52h LOD switch; they are printed in abstract times",
     ]
     # helper lemmas live in SH/Lemmas/Table*.lean; they are dependencies of the audited theorems (axiom audit is transitive)
-    c.prove("SH.Props.C25", extra_files=["SH/Model/Table.lean", "SH/Lemmas/Table.lean", "SH/Lemmas/TableCells.lean", "SH/Lemmas/TableOrder.lean"])
+    c.prove("SH.Props.C25", extra_files=["SH/Model/Table.lean", "SH/Lemmas/Table.lean", "SH/Lemmas/TableCells.lean", "SH/Lemmas/TableOrder.lean", "SH/Lemmas/TablePage.lean"])
     drv = c.driver(DRIVER)
     binary = c.go_build(HARNESS)
     if binary and drv:
@@ -62,18 +62,25 @@ META = {
              "the pages of the requested functions across the LOD split and has-more is exact (table_page); every row has one column per requested "
              "function (one_column_per_function) and every cell block is the storage values of the row with that key on the page of that function, "
              "NaN in all its columns iff that page has no row with the key (cell_content, cell_content_page, cellBlock_value, cellBlock_nan_iff) — "
-             "the last three for storage answers without duplicate keys per function; with time-ordered storage the page of a function leads the rest "
-             "of its window in the requested time direction (page_leads_in_time), and the fixed handleGetTable hands the ascending LOD list on "
+             "the last three for storage answers without duplicate keys per function; under the storage-order contract (StorageContract / VisitSorted: answers in ascending LOD order, ascending time groups, the rows "
+             "of one time group in the requested order — what the ORDER BY text generated since e9888cce asks the storage for; the harness stub "
+             "enforces it by reading the real generated ORDER BY) the window of a function is exactly all stored rows of all LODs inside the "
+             "markers, visited in the requested total order, the page is its first `limit` elements "
+             "(page_is_first_limit_rows_in_requested_order) and, when the pages of the requested functions hold the same keys, the table after "
+             "the final sort is exactly that page in that order with has-more iff more window rows exist "
+             "(table_is_first_limit_rows_in_requested_order) — the property's sentence literally; with merely time-ordered storage the page still "
+             "leads the rest of the window in time (page_leads_in_time); and the fixed handleGetTable hands the ascending LOD list on "
              "unchanged (handleGetTable_keeps). Old-code behaviour is refuted by `decide` witnesses: group shortcut, spurious has-more, limit 0, NaN "
              "padding per handler-what, shared rowRepr.Tags array (getTableAliased; replayed on the pre-fix tree: same order and markers), and the "
              "double LOD reversal of handleGetTable (Caller.reversesFromEnd). The model is tied to /repo by replaying each generated request on the "
              "real code and on the compiled model and diffing rows, NaN pattern and flag."),
     "note": ("Trusted: Lean kernel; model<->code correspondence on generated requests (quick 3000, thorough 200000); getHandlerWhat, value(), "
              "sort.Sort, Go maps, GetLODs and cache2 are inputs/trusted; ClickHouse is not run (the stub honours the generated ORDER BY text). "
-             "Partial: order among the rows of one second inside a page is the storage's order (not a theorem; oracle table-page only); the cell "
-             "theorems need duplicate-free answers per function (a duplicate key gets its values appended twice). The tree at 8d8821bd still "
-             "violates the property in two places outside table.go: handleGetTable reverses the LODs for fromEnd although getTableFromLODs does so "
-             "itself (fixes/C25-descending-lod-order.diff, sig table-page-lod-order), and writeOrderBy appends DESC to the last ORDER BY key only "
-             "(fixes/C25-order-by-desc-every-key.diff, sig table-page); the model is the fixed code."),
+             "Hypotheses that remain (they are facts about the storage, not about table.go): the storage-order contract and rows inside their "
+             "LOD for the page theorems (ClickHouse is not run; a counterexample without the contract is in Props), duplicate-free answers per "
+             "function for the cell theorems, equal page keys across functions for the whole-table order theorem. Not modelled as a variant of "
+             "getTable: the qry[i] panic of the code before 8d8821bd (predicate oldPanics + witness only). Observation outside C25: "
+             "copyRowValuesAt (series path, promql.go) still indexes qry with the column index as appendRowValues did. Fixed in /repo: 8d8821bd (table.go), 0753f316 (handleGetTable LOD order), e9888cce (ORDER BY … DESC on every key); "
+             "the model is the fixed code, the old behaviours are kept as decide witnesses."),
     "design_ref": "DESIGN.md §6 C25",
 }
